@@ -59,6 +59,11 @@ def make_writer(scn, pps, args):
         kw["tags"] = {Tag[t] for t in meta["tags"]}
     if "source" in meta:
         kw["source"] = meta["source"]
+    if "location" in meta:
+        from commonroad.scenario.scenario import Location
+
+        kw["location"] = Location(geo_name_id=meta["location"][0], gps_latitude=meta["location"][1],
+                                  gps_longitude=meta["location"][2])
     return CommonRoadFileWriter(scn, pps, **kw)
 
 
@@ -86,6 +91,7 @@ class Run(RunBase):
         self.history = {}  # (scn, fmt, prec, meta, method) -> [(digest, step, writer)]
         self.last_construct = None
         self.step = 0
+        self.version = {k: 0 for k in self.scn}  # bumped when a scenario (a writer INPUT) is changed
 
     def close(self):
         self.seams.remove()
@@ -98,6 +104,8 @@ class Run(RunBase):
             return op["scn"] in self.scn
         if k == "write":
             return op["w"] in self.writers
+        if k == "mutate_scn":
+            return op["scn"] in self.scn
         return k in ("clock", "plant")
 
     def _path(self, rel):
@@ -120,7 +128,7 @@ class Run(RunBase):
                     other["foreign_pb"] = True
         self.writers[op["w"]] = {"w": w, "args": args, "scn": op["scn"], "writes": 0, "failed": False,
                                  "last_day": None, "methods": set(), "writes_pending": True,
-                                 "foreign_prec": False, "foreign_pb": False}
+                                 "foreign_prec": False, "foreign_pb": False, "input_changed": False}
         return "ok"
 
     def _op_clock(self, op):
@@ -133,9 +141,40 @@ class Run(RunBase):
             self.probe("clock-went-backwards")
         return "ok"
 
+    def _op_mutate_scn(self, op):
+        """The scenario is an input of the writer: after it changed, the writer must write the CURRENT content
+        (no copy taken at construction time, no cached document)."""
+        import numpy as np
+
+        scn, pps = self.scn[op["scn"]]
+        if op["how"] == "translate":
+            # the network only: Scenario.translate_rotate raises for environment obstacles (C05's business)
+            scn.lanelet_network.translate_rotate(np.array(op["d"], dtype=float), 0.0)
+            pps.translate_rotate(np.array(op["d"], dtype=float), 0.0)
+        elif op["how"] == "author":
+            scn.author = op["value"]
+        elif op["how"] == "remove_obstacle":
+            obs = scn.obstacles
+            if obs:
+                scn.remove_obstacle(obs[0])
+        self.version[op["scn"]] += 1
+        for rec in self.writers.values():
+            if rec["scn"] == op["scn"]:
+                rec["input_changed"] = True
+        return "ok"
+
     def _op_plant(self, op):
+        if op["content"] == "dir":
+            self.faults["F-isdir"] += 1
+            p = self._path(op["path"])
+            if os.path.isfile(p):
+                os.remove(p)
+            os.makedirs(p, exist_ok=True)
+            return "ok"
         self.faults["F-exists"] += 1
         p = self._path(op["path"])
+        if os.path.isdir(p):
+            shutil.rmtree(p, ignore_errors=True)
         if op["content"] == "junk":
             data = hashlib.sha256(op["path"].encode() + str(self.step).encode()).digest() * 7
         else:
@@ -174,8 +213,13 @@ class Run(RunBase):
         if mode == "SKIP" and existed:
             twin_res = None
         else:
+            if os.path.isdir(path):
+                os.makedirs(twin_path, exist_ok=True)  # the twin meets the same obstacle: a directory at its target
+                self.probe("target-is-a-directory")
             twin_res = in_fork(twin)
-            if os.path.exists(twin_path):
+            if os.path.isdir(twin_path):
+                shutil.rmtree(twin_path, ignore_errors=True)
+            elif os.path.exists(twin_path):
                 os.remove(twin_path)
 
         # --- the write under test
@@ -200,6 +244,9 @@ class Run(RunBase):
         if rec["foreign_pb"]:
             self.probe("foreign-protobuf-construct-before-xml-write")
         rec["foreign_prec"] = rec["foreign_pb"] = False
+        if rec.get("input_changed"):
+            self.probe("write-after-scenario-changed")
+            rec["input_changed"] = False
         if rec["methods"] and method not in rec["methods"]:
             self.probe("both-write-methods-on-one-writer")
         rec["methods"].add(method)
@@ -259,7 +306,8 @@ class Run(RunBase):
                             {"writes_by_this_writer": rec["writes"], "args": args})
 
         # --- oracle 2: history of identically constructed writers
-        key = (rec["scn"], args["fmt"], args["prec"], str(sorted((args.get("meta") or {}).items())), method)
+        key = (f"{rec['scn']}@v{self.version[rec['scn']]}", args["fmt"], args["prec"],
+               str(sorted((args.get("meta") or {}).items())), method)
         dig = hashlib.sha256(n_mine).hexdigest()
         self.history.setdefault(key, []).append((dig, self.step, op["w"]))
 
@@ -321,6 +369,9 @@ def _writer_user(rng, run, name, cfg):
             meta = {"author": rng.pick(["A. Writer", "B. Writer"])}
             if rng.chance(0.5):
                 meta["tags"] = sorted(rng.subset(["URBAN", "HIGHWAY", "COMFORT"], 0.5, at_least=1))
+        if rng.chance(cfg.get("p_location", 0.0)):
+            meta = dict(meta or {}, location=[rng.randint(1, 9999), round(rng.uniform(-80, 80), 4),
+                                              round(rng.uniform(-170, 170), 4)])
         prec = rng.pick(cfg["precisions"])
         yield {"op": "construct", "w": w, "scn": rng.pick(scns), "fmt": fmt, "prec": prec, "meta": meta}
         for _ in range(rng.randint(1, 3)):
@@ -358,8 +409,24 @@ def _clock_jumper(rng, run, cfg):
 def _planter(rng, run, cfg):
     while True:
         fmt = rng.pick(["xml", "pb"])
-        yield {"op": "plant", "path": f"f{rng.randrange(cfg['n_paths'])}.{fmt}", "content": rng.pick(["junk", "prev"]),
-               "fault": True}
+        yield {"op": "plant", "path": f"f{rng.randrange(cfg['n_paths'])}.{fmt}",
+               "content": rng.pick(["junk", "prev", "junk", "prev", "dir"]), "fault": True}
+
+
+def _scn_mutator(rng, run, cfg):
+    scns = sorted(run.universe["scenarios"])
+    n = 0
+    while True:
+        n += 1
+        # metadata defaults (author, tags, ...) are resolved when the writer is constructed and are therefore NOT
+        # mutated here; lanelets, obstacles and planning problems are read at write time
+        how = rng.pick(["translate", "remove_obstacle"])
+        op = {"op": "mutate_scn", "scn": rng.pick(scns), "how": how}
+        if how == "translate":
+            op["d"] = [rng.uniform(-5, 5), rng.uniform(-5, 5)]
+        if how == "author":
+            op["value"] = f"author {n}"
+        yield op
 
 
 def _float(rng):
@@ -374,7 +441,7 @@ class C15(Property):
                        "foreign-protobuf-construct-before-xml-write", "skip-onto-existing", "always-onto-existing",
                        "midnight-between-two-writes-of-one-writer", "success-after-failed-write",
                        "both-write-methods-on-one-writer", "write-failed-as-twin", "identical-writers-compared",
-                       "readback-ok", "clock-crossed-midnight", "clock-went-backwards"]
+                       "readback-ok", "clock-crossed-midnight", "clock-went-backwards", "write-after-scenario-changed", "target-is-a-directory"]
     assumptions = [
         "the pristine twin is the library itself (fresh writer, fork-isolated): a defect that a fresh writer shows "
         "too is C01/C02/C03 territory and invisible here by construction",
@@ -389,7 +456,8 @@ class C15(Property):
                 "fmt_weights": rng.pick([[1, 1], [3, 1], [1, 0], [1, 3]]),
                 "precisions": sorted(rng.sample(range(1, 13), rng.randint(1, 4))),
                 "n_paths": rng.randint(1, 4), "p_skip": rng.pick([0.0, 0.2, 0.5]), "p_fault": rng.pick([0.05, 0.1, 0.2]),
-                "buggify_validate": rng.chance(0.5), "p_readback": rng.pick([0.0, 0.3, 1.0])}
+                "buggify_validate": rng.chance(0.5), "p_readback": rng.pick([0.0, 0.3, 1.0]),
+                "mutate_inputs": rng.chance(0.35), "p_location": rng.pick([0.0, 0.3])}
 
     def gen_universe(self, rng, cfg):
         scenarios = {}
@@ -422,6 +490,8 @@ class C15(Property):
             out.append(Client("clock", 1.0, _clock_jumper(rng.sub("clock"), run, cfg)))
         if "F-exists" in cfg["faults"]:
             out.append(Client("planter", 1.0, _planter(rng.sub("planter"), run, cfg)))
+        if cfg.get("mutate_inputs"):
+            out.append(Client("scn_mutator", 0.6, _scn_mutator(rng.sub("mut"), run, cfg)))
         return out
 
     def prune_universe(self, universe, trace):
